@@ -72,7 +72,7 @@ func main() {
 	verifDir := flag.String("verif", "/verif", "verif directory")
 	only := flag.String("harness", "", "only harnesses whose name contains this")
 	verbose := flag.Int("v", 0, "verbosity")
-	solver := flag.String("solver", "z3", "z3|z3-new|cvc5")
+	solver := flag.String("solver", "z3-new", "z3|z3-new|cvc5")
 	paramOverride := flag.String("params", "", "override: k=v,k=v (single instance)")
 	noReplay := flag.Bool("no-replay", false, "do not replay violations natively")
 	replayFile := flag.String("replay", "", "replay a recorded counterexample natively")
